@@ -22,7 +22,12 @@ Definition bP1 (b p : bytes) : bytes :=
     if N.eqb (last_byte p) 32 then b2 else b2 ++ [32]
   end.
 Definition bP (b : bytes) (ps : list bytes) : bytes := fold_left bP1 ps b.
+(** Ident: a quote character inside the name is written twice (fix C16-ident-double-quote-char of
+    sqlx.Builder.Ident; before it the name was written as it is: [bIdent_old]) *)
+Definition esc_ident (s : bytes) : bytes := flat_map (fun c => if N.eqb c ch_bt then [ch_bt; ch_bt] else [c]) s.
 Definition bIdent (b s : bytes) : bytes :=
+  match s with [] => b | _ => b ++ ch_bt :: esc_ident s ++ [ch_bt; 32] end.
+Definition bIdent_old (b s : bytes) : bytes :=
   match s with [] => b | _ => b ++ ch_bt :: s ++ [ch_bt; 32] end.
 Definition bComma (b : bytes) : bytes :=
   match b with
